@@ -165,9 +165,11 @@ def extract_to_sql(path: Path) -> str:
         elif isinstance(st, ast.AugAssign) and ast.unparse(st.target) == 'conditions':
             subs.append(ast.unparse(st.value))
     sdef = [s for s in fn.body if isinstance(s, ast.FunctionDef) and s.name == 'simple']
-    want = ast.parse('def simple(expr, value):\n    if value is not None:\n        conditions.append((expr, value))').body[0]
-    if len(sdef) != 1 or dump(sdef[0]) != dump(want):
-        raise Untranslatable(f'{where}: helper simple() changed')
+    if len(sdef) != 1 or [a.arg for a in sdef[0].args.args] != ['expr', 'value'] or len(sdef[0].body) != 1 \
+            or not isinstance(sdef[0].body[0], ast.If) or sdef[0].body[0].orelse \
+            or [ast.unparse(x) for x in sdef[0].body[0].body] != ['conditions.append((expr, value))']:
+        raise Untranslatable(f'{where}: helper simple() changed shape')
+    range_guard = ast.unparse(sdef[0].body[0].test)
     if subs != ['self._airport_condition(table)', 'self._country_condition(table)',
                 'self._continent_condition(table)', 'self._bounding_box_condition(table)']:
         raise Untranslatable(f'{where}: spatial sub-conditions changed: {subs}')
@@ -176,11 +178,263 @@ def extract_to_sql(path: Path) -> str:
         return '[' + '; '.join(f'"{x}"%string' for x in xs) + ']'
     return (f'Definition range_conjuncts : list string := {sl(ranges)}.\n'
             f'Definition inlist_conjuncts : list string := {sl(inlists)}.\n'
-            f'Definition empty_guard : bool := {"true" if empty_guard else "false"}.\n')
+            f'Definition empty_guard : bool := {"true" if empty_guard else "false"}.\n'
+            f'Definition range_guard : string := {cstr(range_guard)}.\n')
+
+
+def cstr(x: str) -> str:
+    """Coq string literal (double quotes doubled; a line break is written ' | ', indentation kept)."""
+    x = x.replace('\n', ' | ')
+    if any(ord(c) < 32 or ord(c) > 126 for c in x):
+        raise Untranslatable(f'non-printable character in {x!r}')
+    return '"' + x.replace('"', '""') + '"%string'
+
+
+def clist(xs) -> str:
+    return '[' + '; '.join(xs) + ']'
+
+
+def _template(n: ast.AST, where: str) -> str:
+    """An f-string / string constant / concatenation of those, rendered with {expr} placeholders."""
+    if isinstance(n, ast.Constant) and isinstance(n.value, str):
+        return n.value
+    if isinstance(n, ast.JoinedStr):
+        out = ''
+        for v in n.values:
+            if isinstance(v, ast.Constant):
+                out += v.value
+            elif isinstance(v, ast.FormattedValue) and v.format_spec is None and v.conversion == -1:
+                out += '{' + ast.unparse(v.value) + '}'
+            else:
+                raise Untranslatable(f'{where}: f-string part')
+        return out
+    if isinstance(n, ast.BinOp) and isinstance(n.op, ast.Add):
+        return _template(n.left, where) + _template(n.right, where)
+    if isinstance(n, ast.Call):
+        return '{' + ast.unparse(n) + '}'
+    raise Untranslatable(f'{where}: not a string template: {ast.unparse(n)[:60]}')
+
+
+# ---------------------------------------------------------------------------------------------
+# filter.py: the spatial condition builders (column mapping, guards, if/elif structure, parameters)
+# ---------------------------------------------------------------------------------------------
+
+def _spatial_builder(fn: ast.FunctionDef) -> tuple[str, list[str]]:
+    """-> (sub-select template, [branch descriptors]) ; a branch = 'if|elif <test> => return|append <sql> @ <params>'"""
+    where = f'filter.py:Filter.{fn.name}'
+    sub = None
+    branches = []
+
+    def tuple_of(call_or_list):
+        t = call_or_list
+        if not (isinstance(t, ast.Tuple) and len(t.elts) == 2):
+            raise Untranslatable(f'{where}: condition must be a (sql, params) pair')
+        return _template(t.elts[0], where), ast.unparse(t.elts[1])
+
+    def branch(node: ast.If, kw: str):
+        acts = [x for x in node.body if not isinstance(x, ast.Assert)]
+        pre = ''
+        if acts and isinstance(acts[0], ast.Assign) and ast.unparse(acts[0].targets[0]) == 'sub_select':
+            pre = 'sub_select=' + ast.unparse(acts[0].value) + '; '
+            acts = acts[1:]
+        if len(acts) != 1:
+            raise Untranslatable(f'{where}: branch body')
+        a = acts[0]
+        if isinstance(a, ast.Return) and isinstance(a.value, ast.List) and len(a.value.elts) == 1:
+            sql, prm = tuple_of(a.value.elts[0])
+            act = 'return'
+        elif isinstance(a, ast.Expr) and isinstance(a.value, ast.Call) and ast.unparse(a.value.func) == 'conds.append' \
+                and len(a.value.args) == 1:
+            sql, prm = tuple_of(a.value.args[0])
+            act = 'append'
+        else:
+            raise Untranslatable(f'{where}: branch action {ast.unparse(a)[:60]}')
+        branches.append(f'{kw} {ast.unparse(node.test)} => {pre}{act} {sql} @ {prm}')
+        if node.orelse:
+            if len(node.orelse) == 1 and isinstance(node.orelse[0], ast.If):
+                branch(node.orelse[0], 'elif')
+            else:
+                raise Untranslatable(f'{where}: else branch')
+    for st in strip_doc(fn.body):
+        if isinstance(st, ast.FunctionDef) and st.name == 'sub_select_for':
+            if len(st.body) != 1 or not isinstance(st.body[0], ast.Return):
+                raise Untranslatable(f'{where}: sub_select_for')
+            sub = _template(st.body[0].value, where)
+        elif isinstance(st, ast.Assign) and ast.unparse(st.targets[0]) == 'sub_select':
+            sub = _template(st.value, where)
+        elif isinstance(st, ast.Assign) and ast.unparse(st) == 'conds = []':
+            branches.append('conds = []')
+        elif isinstance(st, ast.If):
+            branch(st, 'if')
+        elif isinstance(st, ast.Return) and ast.unparse(st) == 'return conds':
+            branches.append('return conds')
+        else:
+            raise Untranslatable(f'{where}: unexpected statement {ast.unparse(st)[:60]}')
+    if sub is None:
+        raise Untranslatable(f'{where}: no sub-select')
+    return sub, branches
+
+
+def extract_spatial_builders(path: Path) -> str:
+    mod = _parse(path)
+    out = ''
+    for kind in ('airport', 'country', 'continent', 'bounding_box'):
+        sub, br = _spatial_builder(find_function(mod, f'_{kind}_condition', cls='Filter'))
+        out += (f'Definition {kind}_subselect : string := {cstr(sub)}.\n'
+                f'Definition {kind}_branches : list string := {clist(cstr(b) for b in br)}.\n')
+    return out
+
+
+# ---------------------------------------------------------------------------------------------
+# query.py
+# ---------------------------------------------------------------------------------------------
+
+def _append_pair(stmts, where):
+    """[self._conditions.append(<sql>), self._params.append(<p>) | self._params += [...]] -> (sql template, params src)"""
+    if len(stmts) != 2:
+        raise Untranslatable(f'{where}: expected one condition and one parameter statement')
+    a, b = stmts
+    if not (isinstance(a, ast.Expr) and isinstance(a.value, ast.Call) and ast.unparse(a.value.func) == 'self._conditions.append'
+            and len(a.value.args) == 1):
+        raise Untranslatable(f'{where}: condition append')
+    sql = _template(a.value.args[0], where)
+    if isinstance(b, ast.Expr) and isinstance(b.value, ast.Call) and ast.unparse(b.value.func) == 'self._params.append' \
+            and len(b.value.args) == 1:
+        prm = '[' + ast.unparse(b.value.args[0]) + ']'
+    elif isinstance(b, ast.AugAssign) and ast.unparse(b.target) == 'self._params' and isinstance(b.op, ast.Add):
+        prm = ast.unparse(b.value)
+    else:
+        raise Untranslatable(f'{where}: parameter append')
+    return sql, prm
+
+
+def extract_query(path: Path) -> str:
+    mod = _parse(path)
+    out = ''
+    # ---- QueryBase._common_conditions
+    where = 'query.py:QueryBase._common_conditions'
+    body = strip_doc(find_function(mod, '_common_conditions', cls='QueryBase').body)
+    srcs = [ast.unparse(x) for x in body]
+    reset = srcs[:2] == ['self._conditions = []', 'self._params = []']
+    if reset:
+        body, srcs = body[2:], srcs[2:]
+    if any('_conditions = ' in x or '_params = ' in x for x in srcs):
+        raise Untranslatable(f'{where}: _conditions/_params are re-bound somewhere else than at the start')
+    if len(body) != 3 or not all(isinstance(x, ast.If) and not x.orelse for x in body):
+        raise Untranslatable(f'{where}: expected filter / start_date / end_date blocks, got {len(body)} statements')
+    fl, st, en = body
+    want_filter = ("if self.filter is not None:\n    cond, p = self.filter.to_sql(table='f')\n    if cond:\n"
+                   "        self._conditions.append(cond)\n        self._params.extend(p)")
+    if ast.unparse(fl) != want_filter:
+        raise Untranslatable(f'{where}: filter block changed')
+    if ast.unparse(st.test) != 'self.start_date is not None' or ast.unparse(en.test) != 'self.end_date is not None':
+        raise Untranslatable(f'{where}: date guards changed')
+    ssql, sprm = _append_pair(st.body, where)
+    esql, eprm = _append_pair(en.body, where)
+    col = 's.departure_timestamp '
+    if not (ssql.startswith(col) and ssql.endswith(' ?') and esql.startswith(col) and esql.endswith(' ?')):
+        raise Untranslatable(f'{where}: date conjuncts are not on s.departure_timestamp')
+    if sprm != '[int(date_to_timestamp(self.start_date).timestamp())]':
+        raise Untranslatable(f'{where}: start parameter {sprm}')
+    pre, post = '[int((date_to_timestamp(self.end_date) + timedelta(days=', ')).timestamp())]'
+    if not (eprm.startswith(pre) and eprm.endswith(post) and eprm[len(pre):-len(post)].lstrip('-').isdigit()):
+        raise Untranslatable(f'{where}: end parameter {eprm}')
+    plus = int(eprm[len(pre):-len(post)])
+    d2t = find_function(mod, 'date_to_timestamp')
+    if ast.unparse(strip_doc(d2t.body)[-1]) != 'return cast(pd.Timestamp, pd.Timestamp(d, tzinfo=UTC))':
+        raise Untranslatable('query.py:date_to_timestamp changed')
+    wc = find_function(mod, '_where_clause', cls='QueryBase')
+    where_src = ast.unparse(strip_doc(wc.body)[-1])
+    # ---- Query.to_sql
+    where = 'query.py:Query.to_sql'
+    qb = strip_doc(find_function(mod, 'to_sql', cls='Query').body)
+    i = 0
+    validations = []
+    while i < len(qb) and isinstance(qb[i], ast.If) and len(qb[i].body) == 1 and isinstance(qb[i].body[0], ast.Raise):
+        if not ast.unparse(qb[i].body[0].exc).startswith('ValueError('):
+            raise Untranslatable(f'{where}: validation must raise ValueError')
+        validations.append(ast.unparse(qb[i].test))
+        i += 1
+    rest = qb[i:]
+    if len(rest) != 6 or ast.unparse(rest[0]) != 'self._common_conditions()':
+        raise Untranslatable(f'{where}: expected _common_conditions(), sample, every_nth, sql, limit, return')
+    smp, nth, sqlst, lim, ret = rest[1:]
+    if not (isinstance(smp, ast.If) and ast.unparse(smp.test) == 'self.sample is not None' and not smp.orelse):
+        raise Untranslatable(f'{where}: sample block')
+    sample_sql, sample_prm = _append_pair(smp.body, where)
+    if not (isinstance(nth, ast.If) and not nth.orelse):
+        raise Untranslatable(f'{where}: every_nth block')
+    nth_guard = ast.unparse(nth.test)
+    anchored = False
+    if len(nth.body) == 1 and isinstance(nth.body[0], ast.If) and nth.body[0].orelse:
+        inner = nth.body[0]
+        if ast.unparse(inner.test) != 'self.start_date is None':
+            raise Untranslatable(f'{where}: every_nth inner test {ast.unparse(inner.test)}')
+        anchored = True
+        min_sql, min_prm = _append_pair(inner.body, where)
+        base_sql, base_prm = _append_pair(inner.orelse, where)
+    else:
+        min_sql, min_prm = _append_pair(nth.body, where)
+        base_sql, base_prm = '', ''
+    if not (isinstance(sqlst, ast.Assign) and ast.unparse(sqlst.targets[0]) == 'sql'):
+        raise Untranslatable(f'{where}: sql assignment')
+    q_sql = _template(sqlst.value, where)
+    lim_src = ast.unparse(lim)
+    if ast.unparse(ret) != 'return (sql, self._params)':
+        raise Untranslatable(f'{where}: return')
+    # ---- QueryResult.from_row
+    fr = find_function(mod, 'from_row', cls='QueryResult')
+    call = strip_doc(fr.body)[-1]
+    if not (isinstance(call, ast.Return) and isinstance(call.value, ast.Call) and ast.unparse(call.value.func) == 'cls'
+            and not call.value.args):
+        raise Untranslatable('query.py:QueryResult.from_row: return cls(...)')
+    fields = [f'{k.arg}={ast.unparse(k.value)}' for k in call.value.keywords]
+    # ---- CountQuery / FrequentFlightQuery
+    cq = strip_doc(find_function(mod, 'to_sql', cls='CountQuery').body)
+    count_src = [ast.unparse(x) for x in cq]
+    cls_count = [n for n in mod.body if isinstance(n, ast.ClassDef) and n.name == 'CountQuery'][0]
+    proc = [ast.unparse(x.value) for x in cls_count.body
+            if isinstance(x, ast.Assign) and ast.unparse(x.targets[0]) == 'PROCESS_RESULT']
+    fq = strip_doc(find_function(mod, 'to_sql', cls='FrequentFlightQuery').body)
+    if len(fq) != 4 or not isinstance(fq[0], ast.If) or ast.unparse(fq[1]) != 'self._common_conditions()' \
+            or not isinstance(fq[2], ast.Assign) or ast.unparse(fq[3]) != 'return (sql, self._params)':
+        raise Untranslatable('query.py:FrequentFlightQuery.to_sql changed shape')
+    freq_valid = ast.unparse(fq[0].test)
+    freq_sql = _template(fq[2].value, 'query.py:FrequentFlightQuery.to_sql')
+    ffr = find_function(mod, 'from_row', cls='FrequentFlightQueryResult')
+    freq_fields = ast.unparse(strip_doc(ffr.body)[-1])
+    b = lambda x: 'true' if x else 'false'  # noqa: E731
+    out += (f'Definition src_reset_first : bool := {b(reset)}.\n'
+            f'Definition src_shape : shape := Shape {cstr(ssql[len(col):-2])} {cstr(esql[len(col):-2])} ({plus})%Z '
+            f'{cstr(nth_guard)} {b(anchored)}.\n'
+            f'Definition src_where_clause : string := {cstr(where_src)}.\n'
+            f'Definition src_validations : list string := {clist(cstr(v) for v in validations)}.\n'
+            f'Definition src_sample : string * string := ({cstr(sample_sql)}, {cstr(sample_prm)}).\n'
+            f'Definition src_nth_min : string * string := ({cstr(min_sql)}, {cstr(min_prm)}).\n'
+            f'Definition src_nth_base : string * string := ({cstr(base_sql)}, {cstr(base_prm)}).\n'
+            f'Definition src_query_sql : string := {cstr(q_sql)}.\n'
+            f'Definition src_limit_offset : string := {cstr(lim_src)}.\n'
+            f'Definition src_result_fields : list string := {clist(cstr(f) for f in fields)}.\n'
+            f'Definition src_count : list string := {clist(cstr(x) for x in count_src + proc)}.\n'
+            f'Definition src_frequent : list string := {clist(cstr(x) for x in (freq_valid, freq_sql, freq_fields))}.\n')
+    return out
+
+
+HEAD = ('(* generated by translator/c14_extract.py from the current working tree — do not edit *)\n'
+        'From Coq Require Import ZArith List String Bool.\nFrom AV Require Import lib.Dates model.C14_Model model.C14_Sql.\n'
+        'Import ListNotations.\nOpen Scope Z_scope.\n\n')
 
 
 def extract_all(repo: Path) -> str:
-    f = Path(repo) / 'src' / 'AEIC' / 'missions' / 'filter.py'
-    head = ('(* generated by translator/c14_extract.py from the current working tree — do not edit *)\n'
-            'From Coq Require Import ZArith List String Bool.\nImport ListNotations.\nOpen Scope Z_scope.\n\n')
-    return head + extract_normalize(f) + '\n' + extract_to_sql(f)
+    return ''.join(t for _, t in extract_parts(repo))
+
+
+def extract_parts(repo: Path):
+    """[(obligation name, text)] — each part is extracted separately so that a failure names the function."""
+    src = Path(repo) / 'src' / 'AEIC' / 'missions'
+    f, q = src / 'filter.py', src / 'query.py'
+    return [('header', HEAD),
+            ('extract:filter.py:Filter._normalize+_spatial', extract_normalize(f) + '\n'),
+            ('extract:filter.py:Filter.to_sql', extract_to_sql(f) + '\n'),
+            ('extract:filter.py:spatial condition builders', extract_spatial_builders(f) + '\n'),
+            ('extract:query.py:_common_conditions+Query+CountQuery+FrequentFlightQuery', extract_query(q))]
